@@ -63,6 +63,13 @@ def generate(rng, tier):
     for _ in range(36 if quick else 1000):
         cases.append(gen_http(rng))
     cases += gen_framing(rng, None)           # the whole (role x payload) grid: ~200 cases, well under a second
+    for ak in ROUND2_KINDS:
+        for late in (8, 14, 20):
+            for can_kind in ('get', 'web404', 'post_split'):
+                convs = [adversarial_conv(rng, ak, 'adv', 0), canary_conv(rng, can_kind, 'c0', late)]
+                if ak.startswith('reverse') and can_kind == 'reverse':
+                    continue
+                cases.append(dict(kind='http', convs=convs, adv=ak))
     return cases
 
 
@@ -108,7 +115,11 @@ def restrict_case(case, wid):
 # ---- http conversations
 ADVERSARIAL_KINDS = ['badutf8', 'garbage', 'truncated', 'client_reset', 'refused', 'gaierror', 'timeout', 'upstream_reset',
                      'upstream_garbage', 'client_pipe', 'client_oserror', 'eof_now', 'connect_refused', 'two_origins',
-                     'reverse_second', 'huge_header', 'bad_chunk', 'tunnel_abort', 'nul_host', 'upstream_send_err']
+                     'reverse_second', 'huge_header', 'bad_chunk', 'tunnel_abort', 'nul_host', 'upstream_send_err',
+                     'pending_output_teardown', 'lingering_after_upstream_close', 'reverse_short_writes', 'reverse_upstream_never_reads']
+# multi-step scenarios that are always part of the run (several variants each): the canary arrives AFTER the adversarial
+# connection reached its bad state, on the descriptor number the kernel would recycle
+ROUND2_KINDS = ['pending_output_teardown', 'lingering_after_upstream_close', 'reverse_short_writes', 'reverse_upstream_never_reads']
 CANARY_KINDS = ['get', 'post_split', 'chunked', 'tunnel', 'web404', 'reverse']
 
 
@@ -186,6 +197,28 @@ def adversarial_conv(rng, kind, name, arrive):
         return dict(base, client=[b'GET http://\x00\xff/ HTTP/1.1\r\nHost: \x00\r\n\r\n'], upstreams=[dict(respond=ok_resp)])
     if kind == 'upstream_send_err':
         return dict(base, client=[req], upstreams=[dict(send=[rng.choice(['pipe', 'oserror', 'reset'])], respond=ok_resp)])
+    big = b'HTTP/1.1 200 OK\r\nContent-Length: 60000\r\n\r\n' + b'z' * 20000
+    if kind == 'pending_output_teardown':
+        # output is queued for a client that never reads, then the connection is torn down irregularly
+        trigger = rng.choice([b'GET http://adv.test/y HTTP/1.1\r\nHost: adv.test\r\nContent-Length: zz\r\n\r\n',
+                              b'POST http://adv.test/y HTTP/1.1\r\nHost: adv.test\r\nTransfer-Encoding: chunked\r\n\r\nzz\r\n',
+                              b'\xff\xfe garbage after the first request \r\n\r\n'])
+        return dict(base, client=[req, trigger], client_send=[rng.choice([1, 100, 4000])], client_never_reads=True,
+                    upstreams=[dict(respond=[big, b'z' * 20000, b'z' * 20000])])
+    if kind == 'lingering_after_upstream_close':
+        # the upstream is done (EOF / reset) while output is still queued for a slow client: the work lingers
+        return dict(base, client=[req], client_send=[rng.choice([1, 100, 4000])], client_never_reads=True,
+                    upstreams=[dict(respond=[big, b'z' * 40000, rng.choice(['EOF', 'reset'])])])
+    if kind == 'reverse_short_writes':
+        body = b'b' * 5000
+        r = b'POST /rev/a HTTP/1.1\r\nHost: localhost\r\nContent-Length: %d\r\n\r\n' % len(body) + body
+        return dict(base, hosts=['rev.upstream.test'], shared_host=True, client=[r],
+                    upstreams=[dict(send=[rng.choice([1, 10, 1000])] * rng.randrange(1, 4), after=body[-8:], respond=ok_resp)])
+    if kind == 'reverse_upstream_never_reads':
+        body = b'b' * 5000
+        r = b'POST /rev/a HTTP/1.1\r\nHost: localhost\r\nContent-Length: %d\r\n\r\n' % len(body) + body
+        return dict(base, hosts=['rev.upstream.test'], shared_host=True, client=[r],
+                    upstreams=[dict(send=[100], never_reads=True, respond=[])])
     raise ValueError(kind)
 
 
@@ -266,8 +299,8 @@ def gen_http(rng, adv_kind=None):
             used_rev = True
         convs.append(canary_conv(rng, kind, 'c%d' % k, slots[k]))
     ak = adv_kind or rng.choice(ADVERSARIAL_KINDS)
-    if ak == 'reverse_second' and used_rev:
-        ak = 'garbage'
+    if ak.startswith('reverse') and used_rev:
+        ak = 'garbage'          # the fake upstream host of the reverse route is shared: one reverse conversation per case
     convs.append(adversarial_conv(rng, ak, 'adv', slots[n_can]))
     return dict(kind='http', convs=convs, adv=ak)
 
@@ -364,6 +397,11 @@ def oracle(case, out):
         j = out['joint']
         if j['status'][0] == 'crashed':
             return 'the executor loop stopped with %s (adversarial conversation: %s)' % (j['status'][2], case['adv'])
+        if j.get('stalled'):
+            return 'the worker is stalled: %s (adversarial conversation: %s)' % (j['stalled'], case['adv'])
+        if j.get('blocked'):
+            return ('a socket in blocking/timeout mode was asked to send without a fresh write-readiness report (%s): the call '
+                    'blocks the executor loop for the socket timeout (adversarial conversation: %s)' % (j['blocked'][:3], case['adv']))
         for name, a in out['alone'].items():
             if a['status'][0] == 'crashed':
                 return 'the executor loop stopped serving canary %s alone: %s' % (name, a['status'][2])
